@@ -190,6 +190,9 @@ func c06(r *core.Run) {
 	c06Bound(r)
 	c06Rebuild(r, recBuilders, idxList)
 	c06Keys(r, recBuilders, idxBuilders)
+	// the value stored under an index key is (id, score, tolerance) of the signature the key belongs to, at every
+	// writer — add, batch add and rebuild (shared with C05)
+	r.Under("C05.PACKARGS", "C06.PACKARGS", func() { c05PackArgs(r) })
 	// records decoded in a loop (rebuild, batch add, scans) must not inherit fields of the previous record
 	c18FreshTarget(r, "C06.FRESH")
 }
@@ -447,6 +450,29 @@ func c06Adder(r *core.Run, fn *ssa.Function, ops []batchOp, rec map[*ssa.Functio
 			}
 			ok1, n1, _ := core.MustPass(df, del.instr.Block(), guard)
 			r.Check(ok1 && n1 > 0, "C06.IDX", fnm+"#stale-delete-guard("+xn+")", del.instr.Pos(), "delete happens when old."+ff+" != new."+ff, "the stale delete is not tied to old."+ff+" != new."+ff+": a live entry can be deleted")
+			// an emptiness test among the delete's conditions is about the OLD record's field (is there an entry to
+			// remove?) — tested on the new record it leaves the old entry behind whenever the field is being cleared
+			writeGuards := map[*ssa.If]bool{}
+			for _, ifi := range mandatoryIfs(fn, recSet.instr.Block()) {
+				writeGuards[ifi] = true // conditions under which nothing is written at all (validation of the new record)
+			}
+			for _, ifi := range mandatoryIfs(df, del.instr.Block()) {
+				if writeGuards[ifi] {
+					continue
+				}
+				op, x, y, _, okC := core.Compare(ifi.Cond)
+				if !okC || (op != token.NEQ && op != token.EQL) {
+					continue
+				}
+				for _, pair := range [][2]ssa.Value{{x, y}, {y, x}} {
+					if sv, isC := core.ConstString(pair[1]); !isC || sv != "" {
+						continue
+					}
+					if bx, fx, okx := sigField(pair[0]); okx && fx == ff {
+						r.Check(slotOf(bx) == slotOf(dO), "C06.IDX", fnm+"#stale-delete-emptiness-of-old("+xn+")", ifi.Pos(), "the emptiness test guarding the stale delete is on the previously stored record", "the stale delete of "+xn+" is skipped when the NEW record's "+ff+" is empty: an update that clears the field leaves the old index entry behind, and scans reach the signature through a hash no live signature carries")
+					}
+				}
+			}
 			upstream := map[string]bool{}
 			for _, g := range rejectingGuards(fn, recSet.instr.Block()) {
 				upstream[g] = true // conditions under which nothing is written at all
@@ -714,6 +740,154 @@ func c06Bound(r *core.Run) {
 		})
 	}
 	r.Floor("C06.BOUND", "pebble.IterOptions literals", n, 10)
+
+	// a range scan whose iterator bounds are built from two numeric parameters walks the closed interval
+	// [lo, hi] (the upper bound is the increment of hi's key); a re-check of the fetched record against the same
+	// parameters must reject exactly what lies outside that interval — strictly below lo or strictly above hi
+	nRe := 0
+	for _, fn := range p.FuncsIn(storeRel) {
+		var floatParams []*ssa.Parameter
+		for _, pa := range fn.Params {
+			if isFloat64(pa.Type()) {
+				floatParams = append(floatParams, pa)
+			}
+		}
+		if len(floatParams) != 2 || fn.Parent() != nil {
+			continue
+		}
+		var opts *ssa.Alloc
+		core.InstrsOf(fn, func(in ssa.Instruction) {
+			if al, ok := in.(*ssa.Alloc); ok && core.IsNamed(al.Type(), pebblePath, "IterOptions") {
+				opts = al
+			}
+		})
+		if opts == nil {
+			continue
+		}
+		derives := func(v ssa.Value, prm *ssa.Parameter) bool {
+			seen := map[ssa.Value]bool{}
+			var walk func(v ssa.Value, d int) bool
+			walk = func(v ssa.Value, d int) bool {
+				if v == nil || seen[v] || d > 12 {
+					return false
+				}
+				seen[v] = true
+				if v == ssa.Value(prm) {
+					return true
+				}
+				if c, ok := v.(*ssa.Call); ok {
+					for _, a := range c.Call.Args {
+						if elems, isVar := varargElems(a); isVar {
+							for _, e := range elems {
+								if walk(core.Unwrap(e), d+1) {
+									return true
+								}
+							}
+						}
+					}
+				}
+				if in, ok := v.(ssa.Instruction); ok {
+					for _, op := range in.Operands(nil) {
+						if op != nil && *op != nil && walk(*op, d+1) {
+							return true
+						}
+					}
+				}
+				return false
+			}
+			return walk(core.Resolve(v), 0)
+		}
+		loV, okL := core.StructLitField(opts, "LowerBound")
+		upV, okU := core.StructLitField(opts, "UpperBound")
+		if !okL || !okU {
+			continue
+		}
+		var lo, hi *ssa.Parameter
+		for _, pa := range floatParams {
+			if derives(loV, pa) {
+				lo = pa
+			}
+			if derives(upV, pa) {
+				hi = pa
+			}
+		}
+		if lo == nil || hi == nil || lo == hi {
+			continue
+		}
+		for _, b := range fn.Blocks {
+			if len(b.Instrs) == 0 {
+				continue
+			}
+			ifi, ok := b.Instrs[len(b.Instrs)-1].(*ssa.If)
+			if !ok {
+				continue
+			}
+			op, x, y, neg, ok := core.Compare(ifi.Cond)
+			if !ok {
+				continue
+			}
+			var prm *ssa.Parameter
+			recOnLeft := true
+			switch {
+			case core.Unwrap(y) == ssa.Value(lo) || core.Unwrap(y) == ssa.Value(hi):
+				prm = core.Unwrap(y).(*ssa.Parameter)
+			case core.Unwrap(x) == ssa.Value(lo) || core.Unwrap(x) == ssa.Value(hi):
+				prm = core.Unwrap(x).(*ssa.Parameter)
+				recOnLeft = false
+			default:
+				continue
+			}
+			other := y
+			if recOnLeft {
+				other = x
+			}
+			if _, _, isField := fieldLoadBy(core.Unwrap(other), isFloat64); !isField {
+				continue // not a re-check of a fetched record
+			}
+			nRe++
+			// normalise to  record OP param
+			mirror := map[token.Token]token.Token{token.LSS: token.GTR, token.GTR: token.LSS, token.LEQ: token.GEQ, token.GEQ: token.LEQ, token.EQL: token.EQL, token.NEQ: token.NEQ}
+			if !recOnLeft {
+				op = mirror[op]
+			}
+			// which outcome rejects? the successor from which no append to the result is reachable
+			reaches := func(start *ssa.BasicBlock) bool {
+				for rb := range core.ReachAvoiding(start, backEdges(fn)) {
+					for _, in := range rb.Instrs {
+						if v, isV := in.(ssa.Value); isV {
+							if _, isApp := isBuiltinCall(v, "append"); isApp {
+								return true
+							}
+						}
+					}
+				}
+				return false
+			}
+			t, f := reaches(b.Succs[0]), reaches(b.Succs[1])
+			if t == f {
+				continue
+			}
+			rejectOnTrue := !t
+			if neg {
+				rejectOnTrue = !rejectOnTrue
+			}
+			// the comparison that holds on the reject edge
+			complement := map[token.Token]token.Token{token.LSS: token.GEQ, token.GEQ: token.LSS, token.GTR: token.LEQ, token.LEQ: token.GTR, token.EQL: token.NEQ, token.NEQ: token.EQL}
+			rej := op
+			if !rejectOnTrue {
+				rej = complement[op]
+			}
+			want := token.LSS
+			which := "lower"
+			if prm == hi {
+				want, which = token.GTR, "upper"
+			}
+			r.Check(rej == want, "C06.BOUND", core.FuncName(fn)+"#recheck-agrees-with-index-walk("+which+")", ifi.Pos(),
+				"the record re-check rejects only values strictly outside the walked interval",
+				"the record re-check rejects a value when it is "+rej.String()+" the "+which+" bound, but the index walk covers the closed interval: a live signature whose value equals the bound is in the index range and is dropped from the result")
+		}
+	}
+	r.Floor("C06.BOUND", "re-checks of fetched records against the range parameters", nRe, 2)
 }
 
 func globalsReadBy(fn *ssa.Function) []string {
@@ -885,4 +1059,25 @@ func c06Keys(r *core.Run, rec, idx map[*ssa.Function]bool) {
 			r.OK("C06.KEYS", bn+"#composite-key", pos, "key "+rendered+" has at most one free string component (no delimiter ambiguity)")
 		}
 	}
+}
+
+// mandatoryIfs: the Ifs that can reject on the way to sink (one successor cannot reach sink within the iteration).
+func mandatoryIfs(fn *ssa.Function, sink *ssa.BasicBlock) []*ssa.If {
+	back := backEdges(fn)
+	var out []*ssa.If
+	for _, b := range fn.Blocks {
+		if len(b.Instrs) == 0 || b == sink {
+			continue
+		}
+		ifi, ok := b.Instrs[len(b.Instrs)-1].(*ssa.If)
+		if !ok {
+			continue
+		}
+		r0 := !back[core.Edge{From: b, Idx: 0}] && core.ReachAvoiding(b.Succs[0], back)[sink]
+		r1 := !back[core.Edge{From: b, Idx: 1}] && core.ReachAvoiding(b.Succs[1], back)[sink]
+		if r0 != r1 {
+			out = append(out, ifi)
+		}
+	}
+	return out
 }
